@@ -675,6 +675,9 @@ def judgeC14 (ops : List OpRec) : List String :=
           viol s "C14-more-requests-than-attempts" op s!"{sent} requests of the operation reached the coordinator in one call disturbed on the wire, limit {s.retryMax}"
         else s
       else s
+    -- what a disturbed call did about the coordinator (looked it up again, or not) is not judged; nothing is remembered
+    -- about that group from before it
+    let s := if api != 0 && wire then { s with needLookup := s.needLookup.filter (· != op.toks.getD 2 "") } else s
     let s := if api = 0 || wire then s else
       let watchdog := capped
       let s := if watchdog then viol s (if api = 8 then "C14-commit-never-returns" else "C14-never-returns") op
